@@ -110,7 +110,9 @@ var dslWords = []string{"JSIGHT", "0.3", "INFO", "Title", "Version", "Descriptio
 
 func fuzzCase(seed, k int, corpus []string, dir string) (path string, text []byte, desc string) {
 	r := newRng(uint64(seed)*1000003 + uint64(k))
-	switch k % 7 {
+	switch k % 8 {
+	case 7: // a well-formed skeleton whose slots hold unusual values: the build phase is reached
+		return "root.jst", []byte(oddSkeleton(r)), "well-formed skeleton with unusual values"
 	case 6: // long lines made of runs of one byte (limits of the error quote, UTF-8 boundaries), with or without a final line break
 		var sb strings.Builder
 		if r.intn(3) > 0 {
@@ -147,7 +149,7 @@ func fuzzCase(seed, k int, corpus []string, dir string) (path string, text []byt
 			return "root.jst", []byte{}, "empty"
 		}
 		b, _ := os.ReadFile(corpus[r.intn(len(corpus))])
-		if k%7 == 3 {
+		if k%8 == 3 {
 			o, _ := os.ReadFile(corpus[r.intn(len(corpus))])
 			b = append(b[:r.intn(len(b)+1)], o[r.intn(len(o)+1):]...)
 		}
@@ -208,6 +210,79 @@ func fuzzCase(seed, k int, corpus []string, dir string) (path string, text []byt
 			return "root.jst", []byte("\xef\xbb\xbfJSIGHT 0.3\n"), "BOM"
 		}
 	}
+}
+
+var oddSegs = []string{".", ".", "..", "a", "b", "{x}", "{y}", "{}", "{x", "x}", "{@t}", "@t", "%41", "~", "a.b", "{a.b}", "{x}{y}", "\xd0\xb8", "{\xd0\xb8}", "a b", "*", "{.}", "...", "-"}
+
+func oddPath(r *rng) string {
+	var sb strings.Builder
+	for i, n := 0, 1+r.intn(4); i < n; i++ {
+		sb.WriteByte('/')
+		sb.WriteString(oddSegs[r.intn(len(oddSegs))])
+	}
+	if r.intn(6) == 0 {
+		sb.WriteByte('/')
+	}
+	p := sb.String()
+	if strings.ContainsAny(p, " ") || r.intn(8) == 0 {
+		return `"` + p + `"`
+	}
+	return p
+}
+
+// oddSkeleton: JSIGHT, optional declarations, then 1-3 resources (stand-alone method / URL with a method / JSON-RPC URL),
+// each with an unusual path, optional Path / Tags / Query / OperationId and responses with unusual codes and annotations.
+func oddSkeleton(r *rng) string {
+	var sb strings.Builder
+	sb.WriteString("JSIGHT 0.3\n")
+	if r.intn(2) == 0 {
+		sb.WriteString("TYPE @t\n" + []string{"{\"k\": 1}", "1", "\"s\"", "@t | @u", "[1]", "{\"x\": @t} // {optional: true}"}[r.intn(6)] + "\n")
+	}
+	if r.intn(3) == 0 {
+		sb.WriteString("TYPE @u regex\n/" + []string{"a+", "[a-z]{2}", "\\d", "x|y"}[r.intn(4)] + "/\n")
+	}
+	if r.intn(3) == 0 {
+		sb.WriteString("TAG @g" + []string{"", " // \xc2\xa0title", " // t"}[r.intn(3)] + "\n")
+	}
+	ann := func() string {
+		return []string{"", "", " // note", " /* multi\n   line */", " // \xe2\x80\xa8", " // a  \t b"}[r.intn(6)]
+	}
+	code := func() string {
+		return []string{"200", "200", "404", "100", "599", "204"}[r.intn(6)]
+	}
+	for i, n := 0, 1+r.intn(3); i < n; i++ {
+		p := oddPath(r)
+		switch r.intn(4) {
+		case 0, 1:
+			sb.WriteString([]string{"GET", "POST", "PUT", "PATCH", "DELETE"}[r.intn(5)] + " " + p + ann() + "\n")
+		case 2:
+			sb.WriteString("URL " + p + "\n")
+			if r.intn(3) == 0 {
+				sb.WriteString("  Tags @g\n")
+			}
+			sb.WriteString("  " + []string{"GET", "POST"}[r.intn(2)] + ann() + "\n")
+		default:
+			sb.WriteString("URL " + p + "\n  Protocol json-rpc-2.0\n  Method " + []string{"foo", "a.b", "\"x y\"", "\xd0\xb8"}[r.intn(4)] + ann() + "\n")
+			sb.WriteString("    Params\n    " + []string{"{}", "[1]", "@t", "{\"a\": 1}"}[r.intn(4)] + "\n")
+			if r.intn(2) == 0 {
+				sb.WriteString("    Result\n    " + []string{"1", "@t", "{\"r\": @u}"}[r.intn(3)] + "\n")
+			}
+			continue
+		}
+		if r.intn(3) == 0 {
+			sb.WriteString("    Path\n    " + []string{"{\"x\": 1}", "{\"y\": \"s\"}", "{\"x\": @t}", "{\"x\": 1, \"y\": 2}", "{\"@t\": 1}", "{\"a.b\": 1}", "@t"}[r.intn(7)] + "\n")
+		}
+		if r.intn(4) == 0 {
+			sb.WriteString("    Query " + []string{"\"q=1\"", "q=1", "\"\""}[r.intn(3)] + "\n    {\"q\": 1}\n")
+		}
+		if r.intn(5) == 0 {
+			sb.WriteString("    OperationId " + []string{"op", "\"o p\"", "\xd0\xb8"}[r.intn(3)] + "\n")
+		}
+		for j, m := 0, 1+r.intn(2); j < m; j++ {
+			sb.WriteString("    " + code() + " " + []string{"any", "@t", "[@t]", "empty", "@u"}[r.intn(5)] + ann() + "\n")
+		}
+	}
+	return sb.String()
 }
 
 // fuzz-build <repo> <seed> <from> <to>: cases from..to-1 of the seeded fuzz stream.
